@@ -40,15 +40,18 @@ func NewMirror(ctx context.Context, log *slog.Logger, opts ...Opt) (Mirror, erro
 	for _, opt := range opts {
 		err = errors.Join(err, opt(&e, &smCfg))
 	}
-	if err != nil {
-		return nil, err
-	}
 
 	cfg := e.mCfg
-	cfg.InitialHeight = e.genesis.InitialHeight
-	cfg.InitialValidatorSet = e.genesis.GenesisValidatorSet
+	if e.genesis == nil {
+		err = errors.Join(err, errors.New("no genesis set (use tmengine.WithGenesis)"))
+	} else {
+		cfg.InitialHeight = e.genesis.InitialHeight
+		cfg.InitialValidatorSet = e.genesis.GenesisValidatorSet
+	}
 
-	if err := validateMirrorSettings(cfg); err != nil {
+	// Report rejected option values together with missing required options,
+	// so the caller sees every problem at once.
+	if err = errors.Join(err, validateMirrorSettings(cfg)); err != nil {
 		return nil, err
 	}
 
@@ -88,6 +91,11 @@ func validateMirrorSettings(cfg tmmirror.MirrorConfig) error {
 	}
 	if cfg.CommonMessageSignatureProofScheme == nil {
 		err = errors.Join(err, errors.New("no common message signature proof scheme set (use tmengine.WithCommonMessageSignatureProofScheme)"))
+	}
+
+	// The mirror kernel unconditionally registers with the watchdog.
+	if cfg.Watchdog == nil {
+		err = errors.Join(err, errors.New("no watchdog set (use tmengine.WithWatchdog)"))
 	}
 
 	return err
